@@ -54,6 +54,21 @@ def plan(seed):
     return {"seed": seed, "prog": prog, "call": call, "jobs": jobs}
 
 
+def redefinition_scenario():
+    """F20: evaluate f (which calls g); then g disappears and f is redefined without it, in the same process; a fresh
+    process evaluates the new code fine, so must the old one (same signatures)."""
+    import values as V
+    p0 = {"pkg": "vpr", "ext_helpers": {}, "root": ("m0", "f"), "modules": {"m0": {"vars": {}, "funcs": [
+        {"name": "g", "params": [], "annot": None, "salt": "g0", "stmts": [], "reads": []},
+        {"name": "f", "params": [], "annot": "/f", "salt": "f0", "stmts": [{"k": "call", "callee": ("m0", "g"), "args": []}], "reads": []}]}}}
+    p1 = {"pkg": "vpr", "ext_helpers": {}, "root": ("m0", "f"), "modules": {"m0": {"vars": {}, "funcs": [
+        {"name": "f", "params": [], "annot": "/f", "salt": "f1", "stmts": [], "reads": []}]}}}
+    call = {"a": "call", "mod": "m0", "fn": "f", "style": "direct", "pos": [], "kw": []}
+    same_process = [("prog", p0), ("act", call), ("act", {"a": "reprog", "prog": p1}), ("act", call)]
+    fresh = [("prog", p1), ("act", call)]
+    return same_process, fresh
+
+
 def run_job(job):
     name, ev, kw = job
     try:
@@ -102,6 +117,21 @@ def run(rep, tier, seed, proof_ok):
                     rep.violation("model-mismatch:signatures", f"implementation and model disagree ({name}): {json.dumps(d)[:300]}",
                                   {"variant": name, "diffs": d, "events": ev})
         rep.sample({"entry": pl["call"], "baseline_signatures": (base or "")[:200]}, cap=2)
+    # redefinition in the same process (notebook style) vs a fresh process
+    sp, fr = redefinition_scenario()
+    r1 = run_job(("redefinition-same-process", sp, dict(store_kind="memory")))
+    r2 = run_job(("baseline", fr, dict(store_kind="memory")))
+    rep.case("redefinition-in-process")
+    if isinstance(r1, dict) or isinstance(r2, dict):
+        rep.violation("harness-error:c03", "redefinition scenario could not be run", {"r1": str(r1)[:300], "r2": str(r2)[:300]}, no_input=True)
+    else:
+        o1, o2 = hist.impl_obs(r1[-1]), hist.impl_obs(r2[-1])
+        s1 = o1["sigs"] if o1["sigs"] is not None else o1["out"]
+        s2 = o2["sigs"] if o2["sigs"] is not None else o2["out"]
+        if s1 != s2:
+            rep.violation("history-dependent:redefinition-after-helper-removed",
+                          f"after an earlier evaluation in the same process the redefined function gives {s1[:80]}, a fresh process gives {s2[:80]}",
+                          {"same_process": sp, "fresh": fr, "same_process_result": s1, "fresh_result": s2})
     npin = 0
     for r in corp:
         rep.case("corpus:" + r["name"], nontrivial=bool(r["pinned"]))
